@@ -4,6 +4,7 @@
 package main
 
 import (
+	"encoding/json"
 	"flag"
 	"fmt"
 	"os"
@@ -17,7 +18,29 @@ import (
 func main() {
 	mode := flag.String("mode", "mixed", "mixed | qr | rs")
 	g := flag.Int("goroutines", 8, "number of goroutines")
+	writeBase := flag.String("write-baseline", "", "run every operation once, sequentially, and write name -> observation to this file")
+	baseFlag := flag.String("baseline", "", "compare observations with this file (written by a GOMAXPROCS=1 run in another process)")
 	flag.Parse()
+	if *writeBase != "" {
+		m := map[string]string{}
+		for _, o := range checks.RaceOps(*mode) {
+			m[o.Name] = o.Run()
+		}
+		b, _ := json.Marshal(m)
+		if err := os.WriteFile(*writeBase, b, 0o644); err != nil {
+			fmt.Println(err)
+			os.Exit(2)
+		}
+		return
+	}
+	var baseline map[string]string
+	if *baseFlag != "" {
+		b, err := os.ReadFile(*baseFlag)
+		if err != nil || json.Unmarshal(b, &baseline) != nil {
+			fmt.Println("cannot read baseline", *baseFlag, err)
+			os.Exit(2)
+		}
+	}
 	base := runtime.NumGoroutine()
 	ops := checks.RaceOps(*mode)
 	if *mode == "same" {
@@ -64,7 +87,13 @@ func main() {
 	// compare with sequential results
 	bad := 0
 	for i := 0; i < *g; i++ {
-		if want := ops[i%len(ops)].Run(); obs[i] != want {
+		want := ops[i%len(ops)].Run()
+		if b, ok := baseline[ops[i%len(ops)].Name]; ok && want != b {
+			fmt.Printf("%s: observation %s in this process (GOMAXPROCS=%d), %s alone in a process with GOMAXPROCS=1: the result depends on the number of processors\n", ops[i%len(ops)].Name, want, runtime.GOMAXPROCS(0), b)
+			bad++
+			continue
+		}
+		if obs[i] != want {
 			fmt.Printf("goroutine %d (%s): concurrent observation %s, sequential %s\n", i, ops[i%len(ops)].Name, obs[i], want)
 			bad++
 		}
